@@ -1,13 +1,183 @@
-import Pxv.Model.Store
+import Pxv.Lemmas.Store
 /-!
 C13 — session stores behave like a map with expiry, under concurrency too.
+
+Property theorems only (helpers: `Pxv/Lemmas/Store.lean`). Everything is for every state type `σ`,
+every history (list of `(delay, call)`; ids, states, TTLs, delays and traversal orders arbitrary)
+and every schedule. `runObs g step` are the answers of a backend read at spec level, `specObs p g`
+the answers of `MapWithExpiry` (`specStep`) on the same history with its clock at resolution `g`.
 -/
 namespace Pxv.Store
 
-/-- **[finding, known]** SQLite `create` on a live id answers `Ok` (and writes nothing). -/
+variable {σ : Type}
+
+/-! ## In-memory backend -/
+
+/-- **C13 (1), memory, general form**: from any table whose live records are those of an abstract
+    map, every history gets exactly the answers of the specification (strict policy: `create` on a
+    live id is a duplicate-id error). -/
+theorem mem_refines_from (h : List (Nat × Op σ)) (now : Nat) (t : Tbl σ) (a : AMap σ)
+    (ag : Agree now t a) :
+    runObs 1 memStep now t h = specObs (Policy.strict false) 1 now a h := by
+  refine refines_of_sim 1 memStep (Policy.strict false) (fun _ _ _ => false)
+    (fun n t a => Agree (n / 1) t a) ?_ ?_ h now t a (by rwa [Nat.div_one])
+    (anyStep_false_of_never _ _ _ _)
+  · intro n n' s a hle inv
+    rw [Nat.div_one] at inv ⊢
+    exact agree_mono hle inv
+  · intro now op s a inv _
+    rw [Nat.div_one] at inv
+    exact mem_sim inv op
+
+/-- **C13 (1), memory**: the in-memory store, started empty, is observationally the map with expiry
+    for every history. -/
+theorem mem_refines (h : List (Nat × Op σ)) :
+    runObs 1 memStep 0 ([] : Tbl σ) h = specObs (Policy.strict false) 1 0 AMap.empty h :=
+  mem_refines_from h 0 [] AMap.empty (agree_empty 0)
+
+/-! ## SQLite backend -/
+
+/-- The full-strength statement for SQLite (strict policy). It is **false**: see below. -/
+def sqlite_refines_statement : Prop :=
+  ∀ (σ : Type) (h : List (Nat × Op σ)),
+    runObs 1000 sqlStep 0 ([] : Tbl σ) h = specObs (Policy.strict true) 1000 0 AMap.empty h
+
+/-- **[finding 1, known]** `create` on a live id answers `Ok` and writes nothing. -/
 theorem sqlite_create_live_witness :
     runObs 1000 sqlStep 0 ([] : Tbl Nat) [(0, .create 1 7 5000), (0, .create 1 8 5000), (0, .load 1)]
-      ≠ specObs (Policy.strict true) 1000 0 AMap.empty [(0, .create 1 7 5000), (0, .create 1 8 5000), (0, .load 1)] := by
+      = [.ok, .ok, .loaded (some (7, 5))]
+    ∧ specObs (Policy.strict true) 1000 0 AMap.empty [(0, .create 1 7 5000), (0, .create 1 8 5000), (0, .load 1)]
+      = [.ok, .dup, .loaded (some (7, 5))] := by
   decide
+
+/-- **[finding 2, known]** `change_id` onto an id whose expired row was not purged yet answers
+    `DuplicateId`; the map with expiry renames. (Id 1 is created already expired: TTL 0.) -/
+theorem sqlite_change_id_squatted_witness :
+    runObs 1000 sqlStep 0 ([] : Tbl Nat)
+        [(0, .create 1 7 0), (0, .create 2 8 5000), (0, .load 1), (0, .changeId 2 1), (0, .load 1)]
+      = [.ok, .ok, .loaded none, .dup, .loaded none]
+    ∧ specObs ⟨true, true⟩ 1000 0 AMap.empty
+        [(0, .create 1 7 0), (0, .create 2 8 5000), (0, .load 1), (0, .changeId 2 1), (0, .load 1)]
+      = [.ok, .ok, .loaded none, .ok, .loaded (some (8, 5))] := by
+  decide
+
+theorem sqlite_refines_statement_false : ¬ sqlite_refines_statement := by
+  intro h
+  have h1 := h Nat [(0, .create 1 7 5000), (0, .create 1 8 5000), (0, .load 1)]
+  rw [sqlite_create_live_witness.1, sqlite_create_live_witness.2] at h1
+  exact absurd h1 (by decide)
+
+/-- General form of the two SQLite theorems: from agreeing states, for a policy that lets
+    `change_id(i,i)` succeed, a history in which no call is a recorded finding (finding 1 only
+    matters under the strict policy) gets exactly the specification's answers. -/
+theorem sqlite_refines_from (p : Policy) (hp : p.renameSelfOk = true) (h : List (Nat × Op σ)) (now : Nat)
+    (t : Tbl σ) (a : AMap σ) (ag : Agree (now / 1000) t a)
+    (hc : p.createOnLiveOk = true ∨ anyStep sqlStep sqlCreateOnLive now t h = false)
+    (hs : anyStep sqlStep sqlSquattedRename now t h = false) :
+    runObs 1000 sqlStep now t h = specObs p 1000 now a h := by
+  rcases hc with hc | hc
+  · refine refines_of_sim 1000 sqlStep p sqlSquattedRename (fun n t a => Agree (n / 1000) t a) ?_ ?_ h now t a ag hs
+    · intro n n' s a hle inv
+      exact agree_mono (Nat.div_le_div_right hle) inv
+    · intro now op s a inv hb
+      exact sql_sim p hp inv op (Or.inl hc) hb
+  · refine refines_of_sim 1000 sqlStep p (fun n o s => sqlCreateOnLive n o s || sqlSquattedRename n o s)
+      (fun n t a => Agree (n / 1000) t a) ?_ ?_ h now t a ag (by rw [anyStep_or, hc, hs]; rfl)
+    · intro n n' s a hle inv
+      exact agree_mono (Nat.div_le_div_right hle) inv
+    · intro now op s a inv hb
+      simp only [Bool.or_eq_false_iff] at hb
+      exact sql_sim p hp inv op (Or.inr hb.1) hb.2
+
+/-- **C13 (1), SQLite, proved part**: against the specification weakened at exactly one point —
+    `create` on a live id may answer `Ok`, still without any effect (finding 1) — the SQLite store
+    refines the map with expiry (at second resolution) for every history that contains no rename
+    onto a squatted id (finding 2). -/
+theorem sqlite_refines_partial (h : List (Nat × Op σ))
+    (hs : anyStep sqlStep sqlSquattedRename 0 ([] : Tbl σ) h = false) :
+    runObs 1000 sqlStep 0 ([] : Tbl σ) h = specObs ⟨true, true⟩ 1000 0 AMap.empty h :=
+  sqlite_refines_from ⟨true, true⟩ rfl h 0 [] AMap.empty (agree_empty _) (Or.inl rfl) hs
+
+/-- **C13 (1), SQLite, conditional full strength**: on every history in which neither recorded
+    finding occurs, the SQLite store meets the *strict* specification. So the two findings are the
+    only ways in which the (modelled) SQLite store is not a map with expiry. -/
+theorem sqlite_refines_of_clean (h : List (Nat × Op σ))
+    (hc : anyStep sqlStep sqlCreateOnLive 0 ([] : Tbl σ) h = false)
+    (hs : anyStep sqlStep sqlSquattedRename 0 ([] : Tbl σ) h = false) :
+    runObs 1000 sqlStep 0 ([] : Tbl σ) h = specObs (Policy.strict true) 1000 0 AMap.empty h :=
+  sqlite_refines_from (Policy.strict true) rfl h 0 [] AMap.empty (agree_empty _) (Or.inr hc) hs
+
+/-! ## Concurrency -/
+
+/-- **C13 (2), linearizability of atomic calls**: for every step function, every set of task
+    programs and every schedule, the answers the tasks receive are exactly those of the
+    *sequential* history `linearise` — the calls in the order in which the schedule performs them.
+    (Atomicity of a call — mutex first and nothing else awaited / one SQL statement — is the
+    assumption that makes `runConc` the right semantics; the check re-extracts it from the source.) -/
+theorem atomic_linearizable {S R : Type} (step : Nat → Op σ → S → S × R) (sched : List Tick) :
+    ∀ (now carry : Nat) (s : S) (progs : List (List (Op σ))),
+      (runConc step (now + carry) s progs sched).map (·.2)
+        = run step now s ((linearise carry progs sched).map (·.2))
+      ∧ (runConc step (now + carry) s progs sched).map (·.1) = (linearise carry progs sched).map (·.1) := by
+  induction sched with
+  | nil => intros; exact ⟨rfl, rfl⟩
+  | cons tk sched ih =>
+    obtain ⟨d, k⟩ := tk
+    intro now carry s progs
+    simp only [runConc, linearise]
+    split
+    · rename_i op rest _
+      have := ih (now + carry + d) 0 (step (now + carry + d) op s).1 (progs.set k rest)
+      simp only [Nat.add_zero] at this
+      simp only [List.map_cons, run, Nat.add_assoc] at this ⊢
+      exact ⟨by rw [this.1], by rw [this.2]⟩
+    · have := ih now (carry + d) s progs
+      simp only [Nat.add_assoc] at this ⊢
+      exact this
+
+/-- The linearisation respects every task's program order: the calls of task `k` occur in it in
+    program order, as an initial segment of `progs[k]`. -/
+theorem linearise_program_order (k : Nat) (sched : List Tick) :
+    ∀ (carry : Nat) (progs : List (List (Op σ))),
+      (((linearise carry progs sched).filter (fun e => e.1 == k)).map (·.2.2)) <+: (progs[k]?).getD [] := by
+  induction sched with
+  | nil => intros; simp [linearise]
+  | cons tk sched ih =>
+    obtain ⟨d, k'⟩ := tk
+    intro carry progs
+    simp only [linearise]
+    split
+    · rename_i op rest hk
+      have := ih 0 (progs.set k' rest)
+      by_cases hkk : k' = k
+      · subst hkk
+        have hlt : k' < progs.length := by
+          rcases Nat.lt_or_ge k' progs.length with h | h
+          · exact h
+          · rw [List.getElem?_eq_none h] at hk; cases hk
+        simp only [List.filter_cons, beq_self_eq_true, if_true, List.map_cons, hk, Option.getD_some]
+        rw [List.getElem?_set_self hlt] at this
+        simpa using this
+      · have hne : (k' == k) = false := by simpa using hkk
+        simp only [List.filter_cons, hne, Bool.false_eq_true, if_false]
+        rwa [List.getElem?_set_ne hkk] at this
+    · exact ih (carry + d) progs
+
+/-- **C13 (2), memory, concurrent callers**: whatever the interleaving, the answers the tasks get
+    from the in-memory store are the answers of the map with expiry on one sequential order of
+    their calls (the linearisation), which respects each task's program order. -/
+theorem mem_concurrent (progs : List (List (Op σ))) (sched : List Tick) :
+    let lin := (linearise 0 progs sched).map (·.2)
+    (runConc memStep 0 ([] : Tbl σ) progs sched).map (·.2) = run memStep 0 [] lin
+    ∧ runObs 1 memStep 0 ([] : Tbl σ) lin = specObs (Policy.strict false) 1 0 AMap.empty lin :=
+  ⟨(atomic_linearizable memStep sched 0 0 [] progs).1, mem_refines _⟩
+
+/-- **C13 (2), SQLite, concurrent callers** (same, modulo the two recorded findings). -/
+theorem sqlite_concurrent (progs : List (List (Op σ))) (sched : List Tick)
+    (hs : anyStep sqlStep sqlSquattedRename 0 ([] : Tbl σ) ((linearise 0 progs sched).map (·.2)) = false) :
+    let lin := (linearise 0 progs sched).map (·.2)
+    (runConc sqlStep 0 ([] : Tbl σ) progs sched).map (·.2) = run sqlStep 0 [] lin
+    ∧ runObs 1000 sqlStep 0 ([] : Tbl σ) lin = specObs ⟨true, true⟩ 1000 0 AMap.empty lin :=
+  ⟨(atomic_linearizable sqlStep sched 0 0 [] progs).1, sqlite_refines_partial _ hs⟩
 
 end Pxv.Store
